@@ -24,6 +24,7 @@ def run(ctx):
     c_catch(ctx, names, temps)
     d_normaliser(ctx)
     e_all_matching_heads(ctx)
+    c_merge_same_fork(ctx)
     f_precedence(ctx)
     d_members_copied(ctx)
     a_matchers_armed_before_start(ctx, temps)
@@ -268,6 +269,26 @@ def lark_rules(text):
         elif cur is not None and line[0].isspace():
             rules[cur] += " " + line.strip()
     return rules
+
+
+def c_merge_same_fork(ctx):
+    """When forked heads are merged, the heads that COMPETE for continuing are the heads that arrived at this merge statement.  A head that is merging at the fork of an
+    inner group (an and-member that has just failed) sits at a different MergeHeads element; counted in, it ties with or beats the head of a satisfied or-branch (its score
+    chain is empty, i.e. padded to an exact match), the satisfied branch is dropped and the group never completes although its formula holds (F103)."""
+    t = ctx.tree.ast(SM)
+    sl = find_function(t, "slide")
+    if sl is None:
+        raise AnalysisError("slide not found", anchor=SM + "::slide")
+    comps = [c for c in ast.walk(sl) if isinstance(c, (ast.ListComp, ast.GeneratorExp, ast.SetComp))
+             and any("FlowHeadStatus.MERGING" in src(i) for g in c.generators for i in g.ifs)]
+    ctx.floor("C07.c.merge-same-fork", SM, "collection of the heads that compete at a merge", len(comps), 1)
+    for c in comps:
+        conds = " and ".join(src(i) for g in c.generators for i in g.ifs)
+        ok = "fork_uid" in conds
+        ctx.check("C07.c.merge-same-fork", SM, "slide", "competing heads are the heads at this merge statement", ok,
+                  "only heads whose MergeHeads element belongs to the same fork compete" if ok else
+                  "every descendant head in state MERGING competes, also one that merges at the fork of an inner group: on an event that fails a member of `(a and b)` and satisfies "
+                  "`c` in `(a and b) or c`, the satisfied branch loses the merge and the statement never completes", line=c.lineno)
 
 
 def f_precedence(ctx):
